@@ -19,10 +19,13 @@ def tests_summary(out):
 def confirm(wt, pid, name=None):
     name = name or pid
     src = os.path.join(wt, "seed", pid)
+    sub = pid
+    pid = pid.split("-")[0]
     sh("git checkout -- . && git clean -fdq tests src", cwd=wt)
     rc, out = sh(f"git apply --check {src}/patch.diff", cwd=wt)
     assert rc == 0, "patch does not apply: " + out
     shutil.copy(os.path.join(src, "demo.rs"), os.path.join(wt, "tests", f"demo_{pid}.rs"))
+    _ = sub
     # without the change: everything passes, demo included
     rc0, out0 = sh("cargo test --offline --no-fail-fast 2>&1", cwd=wt)
     base = tests_summary(out0)
